@@ -25,12 +25,6 @@ def TokenFree (r : Resp) : Prop := ∀ b ∈ r.batches, LitOnly (rbMeta b)
 /-- the response carries an exception batch -/
 def HasExc (r : Resp) : Prop := ∃ e, RBatch.exc e ∈ r.batches
 
-/-- The cursor presented (if it opens at all) belongs to the kind of method the URL names. The
-other case is the unchecked cross-kind type assertion (DESIGN §7 F14, property C14), outside C16. -/
-def KindOK (w : World) (req : Req) : Prop :=
-  ∀ tv cur, getFirst keyState req.md = some tv → openCursor w tv = some cur →
-    cur.st.producer = req.routeProducer
-
 /-! ## Facts regenerated from the source (tools/factgen/c16) -/
 
 /-- The key table `frameworkTickMetadataKeys` is exactly the token, call-token and cancel keys. -/
@@ -65,13 +59,12 @@ theorem events_shape (cfg : Cfg) (w : World) (req : Req) :
     (∃ pos, (handleExchange cfg w req).2.2 = [Event.exchange pos (stripFramework req.md) req.vals]) ∨
     (∃ pos tail, (handleExchange cfg w req).2.2 = Event.produce pos (stripFramework req.md) :: tail ∧
         ∀ ev ∈ tail, ∃ p, ev = Event.produce p []) := by
-  rcases handleExchange_cases cfg w req with ⟨e, h⟩ | ⟨tv, cur, w1, _, _, _, _, h⟩
+  rcases handleExchange_cases cfg w req with ⟨e, h⟩ | ⟨tv, cur, w1, _, _, _, _, _, h⟩
   · rw [h]; exact Or.inl rfl
-  · rcases h with ⟨_, h⟩ | ⟨_, _, h⟩ | ⟨_, _, _, h⟩ | ⟨_, _, _, _, h⟩
+  · rcases h with ⟨_, h⟩ | ⟨_, _, h⟩ | ⟨_, _, _, h⟩
     · rw [h]
       unfold cancelTurn
       cases cur.st.cancel <;> simp
-    · rw [h]; exact Or.inl rfl
     · rw [h]
       refine Or.inr (Or.inr (Or.inr ?_))
       obtain ⟨_, _, _, tail, h4, h5⟩ := produceLoop_spec cfg (cur.st.prog.drop cur.st.pos) cur.st.pos
@@ -185,11 +178,11 @@ theorem one_turn (cfg : Cfg) (w : World) (req : Req)
       (handleExchange cfg w req).2.1.minted = w.minted ++ [advance cur (cur.st.pos + 1)] ∧
       openCursor (handleExchange cfg w req).2.1 (.cursor w.minted.length) = some (advance cur (cur.st.pos + 1)) ∧
       ¬ HasExc (handleExchange cfg w req).1 := by
-  rcases handleExchange_cases cfg w req with ⟨e, h⟩ | ⟨tv, cur, w1, htv, hcur, hm, _, h⟩
+  rcases handleExchange_cases cfg w req with ⟨e, h⟩ | ⟨tv, cur, w1, htv, hcur, hp, hm, _, h⟩
   · rw [h] at hst; simp [errResp] at hst
-  · rcases h with ⟨hc, _⟩ | ⟨_, _, h⟩ | ⟨_, hr, _⟩ | ⟨_, _, hp, _, h⟩
+  · rw [hroute] at hp
+    rcases h with ⟨hc, _⟩ | ⟨_, hr, _⟩ | ⟨_, _, _, h⟩
     · rw [hnc] at hc; cases hc
-    · rw [h] at hst; simp [crossKind] at hst
     · rw [hroute] at hr; cases hr
     · obtain ⟨hev, hsp⟩ := exchangeCall_spec cfg w1 cur req
       rw [← h] at hev hsp
@@ -237,7 +230,6 @@ finish error, a response-cap refusal) — is answered with exactly one exception
 else; no cursor is minted, so no metadata of the response is a token and the stream has ended. -/
 theorem failed_turn_no_cursor (cfg : Cfg) (w : World) (req : Req)
     (hroute : req.routeProducer = false) (hnc : (getFirst keyCancel req.md).isSome = false)
-    (hk : KindOK w req)
     (hfail : ¬ ((handleExchange cfg w req).1.status = 200 ∧ (handleExchange cfg w req).1.rpcErr = false)) :
     (∃ e, (handleExchange cfg w req).1.batches = [RBatch.exc e]) ∧
     (handleExchange cfg w req).2.1.minted = w.minted ∧
@@ -247,11 +239,10 @@ theorem failed_turn_no_cursor (cfg : Cfg) (w : World) (req : Req)
     rintro r ⟨e, he⟩ b hb
     rw [he] at hb
     exact exc_litOnly e b hb
-  rcases handleExchange_cases cfg w req with ⟨e, h⟩ | ⟨tv, cur, w1, htv, hcur, hm, hcl, h⟩
+  rcases handleExchange_cases cfg w req with ⟨e, h⟩ | ⟨tv, cur, w1, htv, hcur, _, hm, hcl, h⟩
   · rw [h]; exact ⟨⟨e, rfl⟩, rfl, rfl, fin _ ⟨e, rfl⟩⟩
-  · rcases h with ⟨hc, _⟩ | ⟨_, hne, _⟩ | ⟨_, hr, _⟩ | ⟨_, _, _, _, h⟩
+  · rcases h with ⟨hc, _⟩ | ⟨_, hr, _⟩ | ⟨_, _, _, h⟩
     · rw [hnc] at hc; cases hc
-    · exact absurd (hk tv cur htv hcur).symm hne
     · rw [hroute] at hr; cases hr
     · obtain ⟨_, hsp⟩ := exchangeCall_spec cfg w1 cur req
       rw [← h] at hsp
@@ -263,17 +254,14 @@ theorem failed_turn_no_cursor (cfg : Cfg) (w : World) (req : Req)
 /-- **failed_no_cursor** (any route: exchange turn, producer continuation, cancel): a response that
 signals failure in any way — non-200 status, the error header, or an exception batch in the body —
 carries no token anywhere and minted no cursor. -/
-theorem failed_no_cursor (cfg : Cfg) (w : World) (req : Req) (hk : KindOK w req)
+theorem failed_no_cursor (cfg : Cfg) (w : World) (req : Req)
     (hfail : (handleExchange cfg w req).1.status ≠ 200 ∨ (handleExchange cfg w req).1.rpcErr = true ∨
       HasExc (handleExchange cfg w req).1) :
     TokenFree (handleExchange cfg w req).1 ∧ (handleExchange cfg w req).2.1.minted = w.minted := by
-  rcases handleExchange_cases cfg w req with ⟨e, h⟩ | ⟨tv, cur, w1, htv, hcur, hm, hcl, h⟩
+  rcases handleExchange_cases cfg w req with ⟨e, h⟩ | ⟨tv, cur, w1, htv, hcur, _, hm, hcl, h⟩
   · rw [h]; exact ⟨fun b hb => exc_litOnly e b hb, rfl⟩
-  · rcases h with ⟨_, h⟩ | ⟨hc, hne, _⟩ | ⟨_, _, _, h⟩ | ⟨_, _, _, _, h⟩
+  · rcases h with ⟨_, h⟩ | ⟨_, _, h⟩ | ⟨_, _, _, h⟩
     · rw [h]; exact ⟨(by intro b hb; cases hb), hm⟩
-    · by_cases hcz : (getFirst keyCancel req.md).isSome = true
-      · rw [hc] at hcz; cases hcz
-      · exact absurd (hk tv cur htv hcur).symm hne
     · obtain ⟨l1, l2, l3, _⟩ := produceLoop_spec cfg (cur.st.prog.drop cur.st.pos) cur.st.pos
         (some (stripFramework req.md)) 0 0 req.env.ticks
       rw [h] at hfail ⊢
@@ -326,11 +314,11 @@ theorem cancel_once_empty (cfg : Cfg) (w : World) (req : Req)
         (handleExchange cfg w req).2.2 = (if cur.st.cancel = CancelAct.absent then [] else [Event.cancel])) ∧
     ((handleExchange cfg w req).1.status ≠ 200 →
       (handleExchange cfg w req).2.2 = [] ∧ ∃ e, (handleExchange cfg w req).1 = errResp 400 false e) := by
-  rcases handleExchange_cases cfg w req with ⟨e, h⟩ | ⟨tv, cur, w1, htv, hcur, hm, _, h⟩
+  rcases handleExchange_cases cfg w req with ⟨e, h⟩ | ⟨tv, cur, w1, htv, hcur, _, hm, _, h⟩
   · rw [h]
     refine ⟨rfl, fun b hb => exc_litOnly e b hb, (by intro ev hev; cases hev), (by simp), ?_, fun _ => ⟨rfl, e, rfl⟩⟩
     intro hs; simp [errResp] at hs
-  · rcases h with ⟨_, h⟩ | ⟨hc2, _⟩ | ⟨hc2, _⟩ | ⟨hc2, _⟩
+  · rcases h with ⟨_, h⟩ | ⟨hc2, _⟩ | ⟨hc2, _⟩
     · rw [h]
       unfold cancelTurn
       refine ⟨hm, (by intro b hb; cases hb), ?_, ?_, ?_, (by intro hs; simp at hs)⟩
@@ -339,7 +327,6 @@ theorem cancel_once_empty (cfg : Cfg) (w : World) (req : Req)
       · intro _
         refine ⟨rfl, rfl, tv, cur, htv, hcur, ?_⟩
         cases cur.st.cancel <;> simp
-    · rw [hc] at hc2; cases hc2
     · rw [hc] at hc2; cases hc2
     · rw [hc] at hc2; cases hc2
 
@@ -351,10 +338,9 @@ theorem at_most_one_cursor (cfg : Cfg) (w : World) (req : Req) :
     (handleExchange cfg w req).2.1.minted = w.minted ∨
     ∃ tv cur pos, getFirst keyState req.md = some tv ∧ openCursor w tv = some cur ∧
       (handleExchange cfg w req).2.1.minted = w.minted ++ [advance cur pos] := by
-  rcases handleExchange_cases cfg w req with ⟨e, h⟩ | ⟨tv, cur, w1, htv, hcur, hm, _, h⟩
+  rcases handleExchange_cases cfg w req with ⟨e, h⟩ | ⟨tv, cur, w1, htv, hcur, _, hm, _, h⟩
   · rw [h]; exact Or.inl rfl
-  · rcases h with ⟨_, h⟩ | ⟨_, _, h⟩ | ⟨_, _, _, h⟩ | ⟨_, _, _, _, h⟩
-    · rw [h]; exact Or.inl hm
+  · rcases h with ⟨_, h⟩ | ⟨_, _, h⟩ | ⟨_, _, _, h⟩
     · rw [h]; exact Or.inl hm
     · rw [h]
       unfold producerContinuation
@@ -370,15 +356,14 @@ theorem at_most_one_cursor (cfg : Cfg) (w : World) (req : Req) :
 
 /-- **rejected_runs_nothing**: a continuation answered with a non-200 status invoked no handler and
 left the world untouched. -/
-theorem rejected_runs_nothing (cfg : Cfg) (w : World) (req : Req) (hk : KindOK w req)
+theorem rejected_runs_nothing (cfg : Cfg) (w : World) (req : Req)
     (hst : (handleExchange cfg w req).1.status ≠ 200) :
     (handleExchange cfg w req).2.2 = [] ∧ (handleExchange cfg w req).2.1 = w := by
-  rcases handleExchange_cases cfg w req with ⟨e, h⟩ | ⟨tv, cur, w1, htv, hcur, hm, _, h⟩
+  rcases handleExchange_cases cfg w req with ⟨e, h⟩ | ⟨tv, cur, w1, htv, hcur, _, hm, _, h⟩
   · rw [h]; exact ⟨rfl, rfl⟩
   · exfalso
-    rcases h with ⟨_, h⟩ | ⟨hc, hne, _⟩ | ⟨_, _, _, h⟩ | ⟨_, _, _, _, h⟩
+    rcases h with ⟨_, h⟩ | ⟨_, _, h⟩ | ⟨_, _, _, h⟩
     · rw [h] at hst; simp [cancelTurn] at hst
-    · exact absurd (hk tv cur htv hcur).symm hne
     · rw [h] at hst
       unfold producerContinuation at hst
       simp only [] at hst
@@ -436,14 +421,9 @@ example : (handleExchange exCfg exWorld
       { md := [(keyState, .cursor 0), (keyCall, .call 0), (kUser, .cursor 0)] }).2.2 =
     [.exchange 0 [(kUser, .cursor 0)] []] := by decide
 
-example : KindOK exWorld exReq := by
-  intro tv cur h1 h2
-  have : tv = .cursor 0 := by
-    have : getFirst keyState exReq.md = some (.cursor 0) := by decide
-    rw [this] at h1; cases h1; rfl
-  subst this
-  have : openCursor exWorld (.cursor 0) = some { call := 0, st := exState } := by decide
-  rw [this] at h2; cases h2; rfl
+-- a cursor presented on the other kind's route is refused before anything runs
+example : (handleExchange exCfg exWorld { exReq with routeProducer := true }) =
+    (errResp 400 false .wrongMethod, exWorld, []) := by decide
 
 end Examples
 
